@@ -3,27 +3,29 @@
    regenerated from the source on every run and says which repairs the code contains
    (name check in NodeStreamer::next, exists flag after a removed clash, sparse guard).
 
-   FULL STATEMENT NOT PROVED (kept here; see NOTES.md, gap G1):
+   restore_exact: PROVED for every destination that holds nothing at a snapshot path (fresh
+   destination, or any extras) — restore_exact_fresh_dest below, all trees / options / worlds —
+   via the four lemmas merge_walk_extras_only, add_file_plan_correct_fresh,
+   restore_contents_writes_plan_fresh, metadata_pass_exact.  STILL OPEN (NOTES.md, gap G1'):
+   destinations with entries AT snapshot paths (identical / modified / shorter / longer files of
+   the same type, and other types with delete):
 
-     Theorem restore_exact : forall o droot roots s,
-       dirs_ok droot s -> tree_shaped droot s -> sorted_unique_normal roots ->
-       index_consistent roots -> SameTypeOrDelete o droot roots s ->
+     Theorem restore_exact : forall o droot roots nodes s,
+       stream code_cfg roots = map toO nodes -> nodes_ok nodes -> nodes_sorted nodes ->
+       dirs_ok droot s -> tree_shaped droot s -> SameTypeOrDelete o droot nodes s ->
        let r := restore code_cfg o droot roots s in
        r_out r = OOk /\
-       (forall p it, In (Some (p, it)) (stream code_cfg roots) ->
-          unconstrained o s p it \/ holds_item (r_fs r) (dpath droot p) it) /\
-       (forall q e, strictly_under droot q = true -> fs_get s q = Some e -> ~ snapshot_path roots q ->
+       (forall x, In x nodes -> unconstrained o s x \/ good droot (r_fs r) x) /\
+       (forall q e, strictly_under droot q = true -> fs_get s q = Some e -> ~ nodepath droot nodes q ->
           if o_delete o then fs_get (r_fs r) q = None else fs_get (r_fs r) q = Some e).
 
      where unconstrained = "same size and mtime, other bytes, verify_existing off" (the
-     property's own exclusion).  Proved instead: the instance below (restore_exact_instance_partial,
-     every option combination on a destination with identical / modified / shorter / longer /
-     missing / extra entries and shared blobs), confinement and the read/plan inclusion for all
-     inputs, and the refutations of the classes excluded by SameTypeOrDelete.  The executable
-     form of the statement is evaluated by the check on every generated case, on the model and
-     on the real code. *)
+     property's own exclusion).  For that case: the worked instance restore_exact_instance_partial
+     (every option combination on a destination with identical / modified / shorter / longer /
+     missing / extra entries and shared blobs); the executable form of the statement is evaluated
+     by the check on every generated case, on the model and on the real code. *)
 From Verif.Base Require Import Tactics.
-From Verif.C14 Require Import Model Extracted Witness Proofs Proofs2 Proofs3.
+From Verif.C14 Require Import Model Extracted Witness Proofs Proofs2 Proofs3 Exact1 Exact2 Exact3 Exact4 Exact5 Exact6 Exact7 Exact8.
 Local Open Scope N_scope.
 
 (* No path outside the destination — nor the destination root itself — is created, modified or
@@ -119,3 +121,121 @@ Theorem restore_exact_instance_partial : forall verify sparse,
    absent (r_fs (restore code_cfg (mkO true verify sparse) droot0 snapX worldX)) extras).
 Proof. exact restore_exact_instance. Qed.
 Print Assumptions restore_exact_instance_partial.
+
+(* ================================================================ restore_exact (gap G1) *)
+Local Close Scope N_scope.
+
+(* (a) The merge-walk of collect_and_prepare when no destination entry stands at a snapshot path:
+   from any point of the walk (nodes = done ++ rem, remaining walker entries dst all extras, the
+   invariant KInv: done directories exist, nothing at file/symlink paths, plan correct for the
+   files of done) it ends Ok with the invariant for all nodes; every walker entry is classified
+   as extra (removed iff delete — Estep), every node is visited once, in order. *)
+Theorem merge_walk_extras_only : forall o droot nodes c,
+  NoDup (map fst nodes) -> (forall x, In x nodes -> fst x <> []) ->
+  (forall x j, In x nodes -> 0 < j < length (fst x) -> exists mt mo, In (firstn j (fst x), IDir mt mo) nodes) ->
+  consistent (files_of nodes) ->
+  forall fuel done rem s pl dst,
+  nodes = done ++ rem -> length dst + length rem < fuel -> KInv droot nodes done s pl ->
+  (forall d, In d dst -> extra_entry droot nodes d) ->
+  exists s1 pl1, collect c fuel o droot s pl dst (map toO rem) = (OOk, s1, pl1) /\
+    KInv droot nodes nodes s1 pl1 /\ Estep o droot nodes s dst s1 [].
+Proof. exact collect_fresh. Qed.
+Print Assumptions merge_walk_extras_only.
+
+(* (b) RestorePlan::add_file for a file that is not in the destination keeps the plan invariant:
+   names / lengths / preexisting flags in file order, every location of the plan is a blob of its
+   file at the blob's offset with the blob's bytes, every blob of every file has a location. *)
+Theorem add_file_plan_correct_fresh : forall o droot s pl files l blobs size mt,
+  PlanInv pl files -> consistent (files ++ [(l, blobs)]) -> fs_get s (droot ++ l) = None ->
+  PlanInv (add_file o droot s pl (np l) blobs size mt) (files ++ [(l, blobs)]).
+Proof. exact add_file_fresh. Qed.
+Print Assumptions add_file_plan_correct_fresh.
+
+(* (c) restore_contents executes such a plan: Ok; every planned file holds exactly the
+   concatenation of its blobs (set_length once, write_at per location in the plan's (pack,
+   location) order, a location shared by several files written to each, the hole of an all-zero
+   blob left only in the file just allocated — any sparse setting); nothing else changes. *)
+Theorem restore_contents_writes_plan_fresh : forall c o droot files s0,
+  files_ok files -> forall pl, PlanInv pl files -> dirs_ok droot s0 -> parents_ok droot files s0 ->
+  (forall f, In f files -> fs_get s0 (P droot f) = None) ->
+  exists s' reads, restore_contents c o droot s0 pl = (OOk, s', reads) /\ dirs_ok droot s' /\
+    (forall f, In f files -> exists mt mo, fs_get s' (P droot f) = Some (EFile (econt (snd f)) mt mo)) /\
+    (forall q, (forall f, In f files -> q <> P droot f) -> fs_get s' q = fs_get s0 q).
+Proof. exact restore_contents_fresh. Qed.
+Print Assumptions restore_contents_writes_plan_fresh.
+
+(* (d) the metadata pass (directory stack included): from "content in place" to the snapshot's
+   type / target / mode / mtime at every node; nothing else changes. *)
+Theorem metadata_pass_exact_thm : forall droot all,
+  NoDup (map fst all) -> (forall x, In x all -> fst x <> []) -> forall s, all_pend droot all s ->
+  (forall x, In x all -> good droot (meta_loop droot s [] (map toO all)) x) /\
+  (forall q, (forall x, In x all -> q <> Pn droot x) -> fs_get (meta_loop droot s [] (map toO all)) q = fs_get s q).
+Proof. exact metadata_pass_exact. Qed.
+Print Assumptions metadata_pass_exact_thm.
+
+(* restore_exact for every destination without an entry at a snapshot path: for every option
+   record (delete, verify_existing, sparse), every destination root whose ancestors are
+   directories, every tree whose node stream is `nodes` (nodes_ok: unique non-empty paths, proper
+   prefixes are directory nodes, one byte string per (pack, location)) and every world: the
+   restore ends Ok, every snapshot path holds exactly the snapshot's bytes / type / link target /
+   mode / mtime, and every other entry below the root is removed iff delete and otherwise
+   untouched. *)
+Theorem restore_exact_fresh_dest : forall o droot roots nodes s,
+  stream code_cfg roots = map toO nodes -> nodes_ok nodes -> dirs_ok droot s ->
+  (forall x, In x nodes -> fs_get s (Pn droot x) = None) ->
+  r_out (restore code_cfg o droot roots s) = OOk /\
+  (forall x, In x nodes -> good droot (r_fs (restore code_cfg o droot roots s)) x) /\
+  (forall q e, strictly_under droot q = true -> fs_get s q = Some e ->
+     if o_delete o then fs_get (r_fs (restore code_cfg o droot roots s)) q = None
+     else fs_get (r_fs (restore code_cfg o droot roots s)) q = Some e).
+Proof. exact restore_exact_fresh_dest_code. Qed.
+Print Assumptions restore_exact_fresh_dest.
+Example restore_exact_fresh_dest_hyps :
+  stream code_cfg snapY = map toO nodesY /\ nodes_ok nodesY /\ dirs_ok droot0 worldY /\
+  (forall x, In x nodesY -> fs_get worldY (Pn droot0 x) = None).
+Proof. exact exampleY_hyps. Qed.
+
+(* Pre-existing file of the snapshot's size (the case verify_existing / size+mtime differing sends
+   into the per-blob comparison), per file: (1) the plan is exactly the insertion of the file's
+   locations `file_locs` (the reader of add_file's loop); (2) location k is blob k at the blob's
+   offset, flagged `matches` iff the existing bytes there are the blob (hash = equality);
+   (3) writing the unflagged blobs over the existing bytes (no hole: the file existed) yields the
+   concatenation of the blobs.  PARTIAL: in file order, one file; see NOTES.md gap G1'. *)
+Theorem restore_exact_existing_file_partial : forall idx bl d0 r,
+  length d0 = blen bl ->
+  plan_blobs idx (Some d0) 0%N bl r =
+    (fold_left (fun r x => r_insert r (bkey (fst x)) (b_data (fst x)) (snd x)) (file_locs idx (Some d0) 0%N bl) r,
+     N.of_nat (blen bl)) /\
+  (forall k b fl, nth_error (file_locs idx (Some d0) 0%N bl) k = Some (b, fl) ->
+     nth_error bl k = Some b /\ fl_idx fl = idx /\ fl_start fl = N.of_nat (blen (firstn k bl)) /\
+     (fl_matches fl = true <-> firstn (dlen b) (skipn (blen (firstn k bl)) d0) = b_data b)) /\
+  fold_left apply_loc (file_locs idx (Some d0) 0%N bl) d0 = econt bl.
+Proof. exact existing_file_exact. Qed.
+Print Assumptions restore_exact_existing_file_partial.
+Example existing_file_hyps : length [1%N; 2%N; 9%N; 9%N] = blen [kA; kB].
+Proof. reflexivity. Qed.
+
+(* The node stream of a tree whose visited names are single normal components (nnb) is the
+   pre-order flattening of the tree — for every code configuration. *)
+Theorem node_stream_is_flattening : forall c roots,
+  forallb nnb roots = true -> stream c roots = map toO (flat_list [] roots).
+Proof. exact stream_flat. Qed.
+Print Assumptions node_stream_is_flattening.
+
+(* restore_exact_fresh_dest stated on the tree: names single normal components, the flattening
+   satisfies nodes_ok (unique paths = distinct sibling names; prefixes are directories by
+   construction; index consistency), nothing in the destination at a snapshot path. *)
+Theorem restore_exact_fresh_dest_tree : forall o droot roots s,
+  forallb nnb roots = true -> nodes_ok (flat_list [] roots) -> dirs_ok droot s ->
+  (forall x, In x (flat_list [] roots) -> fs_get s (Pn droot x) = None) ->
+  r_out (restore code_cfg o droot roots s) = OOk /\
+  (forall x, In x (flat_list [] roots) -> good droot (r_fs (restore code_cfg o droot roots s)) x) /\
+  (forall q e, strictly_under droot q = true -> fs_get s q = Some e ->
+     if o_delete o then fs_get (r_fs (restore code_cfg o droot roots s)) q = None
+     else fs_get (r_fs (restore code_cfg o droot roots s)) q = Some e).
+Proof. exact restore_exact_fresh_dest_tree_lemma. Qed.
+Print Assumptions restore_exact_fresh_dest_tree.
+Example restore_exact_fresh_dest_tree_hyps :
+  forallb nnb snapY = true /\ flat_list [] snapY = nodesY /\ nodes_ok nodesY /\ dirs_ok droot0 worldY /\
+  (forall x, In x nodesY -> fs_get worldY (Pn droot0 x) = None).
+Proof. exact (conj (proj1 exampleY_tree) (conj (proj2 exampleY_tree) (proj2 exampleY_hyps))). Qed.
